@@ -16,31 +16,36 @@ instance instDecidableEqExcept {ε α} [DecidableEq ε] [DecidableEq α] : Decid
   | .ok _, .error _ => isFalse (by intro h; cases h)
   | .error _, .ok _ => isFalse (by intro h; cases h)
 
-/-- a value picked by `pickAboveMean` is one of the samples above the mean -/
-theorem pickAboveMean_gt (r : Nat) (s : List Rat) (v : Rat)
-    (h : pickAboveMean r s = .ok v) : (r : Rat) < v := by
+/-- a value picked by `pickAboveMean` is the runtime itself or a sample above it -/
+theorem pickAboveMean_ge (r : Nat) (s : List Rat) (v : Rat)
+    (h : pickAboveMean r s = .ok v) : (r : Rat) ≤ v := by
   unfold pickAboveMean at h
   simp only at h
   split at h
-  · rename_i w hw
-    injection h with h
+  · injection h with h
     subst h
-    have hm : w ∈ s.filter (fun x => x > (r : Rat)) := List.mem_of_getElem? hw
-    have := (List.mem_filter.mp hm).2
-    simpa using this
-  · cases h
+    exact Rat.le_refl
+  · split at h
+    · rename_i w hw
+      injection h with h
+      subst h
+      have hm : w ∈ s.filter (fun x => x > (r : Rat)) := List.mem_of_getElem? hw
+      have := (List.mem_filter.mp hm).2
+      have hlt : (r : Rat) < w := by simpa using this
+      exact Rat.le_of_lt hlt
+    · cases h
 
-/-- truncation of a rational above a natural stays at or above it -/
-theorem le_truncRat_of_lt (r : Nat) (v : Rat) (h : (r : Rat) < v) : (r : Int) ≤ truncRat v := by
+/-- truncation of a rational at or above a natural stays at or above it -/
+theorem le_truncRat_of_le (r : Nat) (v : Rat) (h : (r : Rat) ≤ v) : (r : Int) ≤ truncRat v := by
   have h0 : (0 : Rat) ≤ (r : Rat) := by
     have : ((0 : Nat) : Rat) ≤ (r : Rat) := by
       exact_mod_cast Nat.zero_le r
     simpa using this
-  have hv : v ≥ 0 := Rat.le_trans h0 (Rat.le_of_lt h)
+  have hv : v ≥ 0 := Rat.le_trans h0 h
   unfold truncRat
   rw [if_pos hv]
   apply Rat.le_floor_iff.mpr
-  exact Rat.le_of_lt h
+  exact h
 
 theorem delay_ge (r : Nat) (dz : Bool) (dist : Dist) (p u : Rat) (s : List Rat) (v : Int)
     (h : generateDelay r dz dist p u s = .ok v) : (r : Int) ≤ v := by
@@ -54,7 +59,7 @@ theorem delay_ge (r : Nat) (dz : Bool) (dist : Dist) (p u : Rat) (s : List Rat) 
         · rename_i w hw
           injection h with h
           subst h
-          exact le_truncRat_of_lt r w (pickAboveMean_gt r s w hw)
+          exact le_truncRat_of_le r w (pickAboveMean_ge r s w hw)
         · cases h
       · cases h
       · cases h
@@ -81,25 +86,54 @@ theorem delay_never_fails_neg :
   rw [this] at hv
   cases hv
 
-theorem delay_normal_ok (r : Nat) (dz : Bool) (p u : Rat) (s : List Rat)
-    (h : ∃ x ∈ s, x > (r : Rat)) : ∃ v, generateDelay r dz .normal p u s = .ok v := by
-  obtain ⟨x, hx, hgt⟩ := h
-  have hm : x ∈ s.filter (fun y => y > (r : Rat)) := by
-    apply List.mem_filter.mpr
-    exact ⟨hx, by simpa using hgt⟩
-  have hlen : 0 < (s.filter (fun y => y > (r : Rat))).length := List.length_pos_of_mem hm
-  have hidx : (s.filter (fun y => y > (r : Rat))).length / 2 <
-      (s.filter (fun y => y > (r : Rat))).length := by omega
-  have hpick : pickAboveMean r s = .ok ((s.filter (fun y => y > (r : Rat)))[(s.filter (fun y => y > (r : Rat))).length / 2]) := by
-    unfold pickAboveMean
-    simp only
+/-- `pickAboveMean` never fails -/
+theorem pickAboveMean_ok (r : Nat) (s : List Rat) : ∃ v, pickAboveMean r s = .ok v := by
+  unfold pickAboveMean
+  simp only
+  split
+  · exact ⟨_, rfl⟩
+  · rename_i hne
+    have hidx : (s.filter (fun y => y > (r : Rat))).length / 2 <
+        (s.filter (fun y => y > (r : Rat))).length := by omega
     rw [List.getElem?_eq_getElem hidx]
+    exact ⟨_, rfl⟩
+
+theorem delay_normal_ok (r : Nat) (dz : Bool) (p u : Rat) (s : List Rat) :
+    ∃ v, generateDelay r dz .normal p u s = .ok v := by
+  obtain ⟨w, hw⟩ := pickAboveMean_ok r s
   unfold generateDelay
   split
   · exact ⟨_, rfl⟩
   · split
-    · simp only [hpick]
+    · simp only [hw]
       exact ⟨_, rfl⟩
     · exact ⟨_, rfl⟩
+
+/-- with no sample above the mean (e.g. runtime 0: sigma = 0) nothing is added -/
+theorem delay_no_sample_above (r : Nat) (dz : Bool) (p u : Rat) (s : List Rat)
+    (h : ∀ x ∈ s, x ≤ (r : Rat)) : generateDelay r dz .normal p u s = .ok r := by
+  have hf : s.filter (fun y => y > (r : Rat)) = [] := by
+    apply List.filter_eq_nil_iff.mpr
+    intro x hx
+    have := h x hx
+    simp only [gt_iff_lt, decide_eq_true_eq]
+    exact Rat.not_lt.mpr this
+  have hp : pickAboveMean r s = .ok (r : Rat) := by
+    unfold pickAboveMean
+    simp [hf]
+  have ht : truncRat (r : Rat) = (r : Int) := by
+    have h0 : (0 : Rat) ≤ (r : Rat) := by
+      have : ((0 : Nat) : Rat) ≤ (r : Rat) := by exact_mod_cast Nat.zero_le r
+      simpa using this
+    unfold truncRat
+    rw [if_pos h0]
+    have hc : (r : Rat) = (((r : Int)) : Rat) := by exact_mod_cast rfl
+    rw [hc, Rat.floor_intCast]
+  unfold generateDelay
+  split
+  · rfl
+  · split
+    · simp only [hp, ht]
+    · rfl
 
 end Topsim
